@@ -202,6 +202,16 @@ impl PathMap {
         self.map.insert(path, locations);
     }
 
+    /// Forget the entry recorded for `path`, if any.
+    ///
+    /// Used when the value at `path` turns out to be discarded by the target type (Serde asked
+    /// for it as `IgnoredAny`): such a value is not part of the deserialized result, so no
+    /// validation path can refer to it, and keeping it would let an ignored look-alike key
+    /// shadow (exact pass) or tie with (fuzzy passes) the key a field was really read from.
+    pub(crate) fn remove(&mut self, path: &PathKey) {
+        self.map.remove(path);
+    }
+
     pub(crate) fn search(&self, path: &PathKey) -> Option<(Locations, String)> {
         // 1) Direct lookup.
         if let Some(loc) = self.map.get(path) {
